@@ -10,7 +10,8 @@ ID = "C18"
 LEVEL = "model_checking"
 
 KW_Q = [{}, {"MRTS": 2 * U}, {"MRTS": "auto"}, {"max_tau": U, "MRTS": 6 * U}, {"RI": True, "MRTS": 1.5 * U},
-        {"interval": "mid"}, {"interval": "first", "max_tau": 0.5 * U}]
+        {"interval": "mid"}, {"interval": "first", "max_tau": 0.5 * U},
+        {"MRTS": "auto", "Reconcile": False}]
 KW_T = KW_Q + [{"MRTS": 40 * U}, {"max_tau": 2 * U}, {"RI": True}, {"interval": "last", "MRTS": "auto"},
                {"MRTS": 0.5 * U, "max_tau": 3 * U}]
 
@@ -23,7 +24,8 @@ def takes_interval(name):
 
 def plan(tier):
     if tier == "quick":
-        specs = [(2, [("dense", 1, 5)], KW_Q), (3, [("dense", 1, 3)], KW_Q[:5]), (4, [("dense", 1, 2)], KW_Q[:4])]
+        specs = [(2, [("dense", 1, 4)], KW_Q), (2, [("dense", 5, 5)], KW_Q[:5]), (3, [("dense", 1, 3)], KW_Q[:5]),
+                 (4, [("dense", 1, 2)], KW_Q[:4])]
     else:
         specs = [(2, [("dense", 1, 7), ("bounded", 3, 8, 9)], KW_T), (3, [("dense", 1, 4)], KW_Q),
                  (4, [("dense", 1, 3)], KW_Q[:5])]
@@ -36,7 +38,8 @@ def plan(tier):
         descs += d
     return {
         "tasks": tasks,
-        "bounds": {"regimes": descs, "entry_points": 34, "lattice": {"t0": T0, "u": U},
+        "bounds": {"regimes": descs, "entry_points": "34 call forms + 24 list forms with `indices` "
+                                                     "given as numpy array / tuple", "lattice": {"t0": T0, "u": U},
                    "backends": ["py", "pyx-model"]},
         "rule": "breadth-first enumeration of all ordered N-tuples (N=2,3,4) of lattice spike trains "
                 "- every combination of empty, one-spike, edge-spike and identical trains is a "
@@ -87,19 +90,48 @@ def wellformed(obs, ts, te):
 ENTRIES = []
 
 
+def index_entries():
+    """list forms with the `indices` selection given as a numpy array and as a tuple"""
+    import numpy as np
+    import pyspike as spk
+    from mc.measures import _prof, _lst
+    E = []
+    for nm, f, conv in (("isi_profile", spk.isi_profile, _prof), ("spike_profile", spk.spike_profile, _prof),
+                        ("spike_sync_profile", spk.spike_sync_profile, _prof),
+                        ("spike_train_order_profile", spk.spike_train_order_profile, _prof),
+                        ("isi_distance", spk.isi_distance, float),
+                        ("spike_distance", spk.spike_distance, float),
+                        ("spike_sync", spk.spike_sync, float),
+                        ("spike_train_order", spk.spike_train_order, float),
+                        ("isi_distance_matrix", spk.isi_distance_matrix, _lst),
+                        ("spike_sync_matrix", spk.spike_sync_matrix, _lst),
+                        ("spike_directionality_values", spk.spike_directionality_values,
+                         lambda v: [_lst(a) for a in v]),
+                        ("spike_directionality_matrix", spk.spike_directionality_matrix, _lst)):
+        for tn, mk in (("ndarray", lambda n: np.array([n - 1, 0])), ("tuple", lambda n: (0, n - 1))):
+            E.append(("%s(list, indices=%s)" % (nm, tn), 2,
+                      (lambda s, f=f, conv=conv, mk=mk, **kw: conv(f(s, indices=mk(len(s)), **kw)))))
+    return E
+
+
 def evaluate(r, trains, edges, kws, be, rank=(), only=None):
     import pyspike as spk
     global ENTRIES
     if not ENTRIES:
-        ENTRIES = entry_points()
+        ENTRIES = entry_points() + index_entries()
     ts, te = edges
     T = te - ts
     ivmap = {"mid": [ts + T / 4, te - T / 4], "first": [ts, ts + T / 2], "last": [ts + T / 2, te]}
     cls = "N%d" % len(trains) + ("/" + pairs.classes(trains, ts, te) if len(trains) == 2 else "")
+    # the same SpikeTrain objects serve all calls of this state: no function may leave them in
+    # a condition that makes a later call fail (also with reconciliation switched off)
+    shared = [spk.SpikeTrain(t, edges) for t in trains]
     for name, _, fn in ENTRIES:
         if only and name != only:
             continue
-        for kw in kws:
+        for ki, kw in enumerate(kws):
+            if "indices=" in name and ki not in (0, 2):
+                continue
             kw2 = dict(kw)
             if "interval" in kw2:
                 if not takes_interval(name):
@@ -107,8 +139,10 @@ def evaluate(r, trains, edges, kws, be, rank=(), only=None):
                 kw2["interval"] = ivmap[kw2["interval"]]
             if not accepts(name, kw2):
                 continue
-            sts = [spk.SpikeTrain(t, edges) for t in trains]
+            sts = shared
             case = {"trains": trains, "edges": edges, "entry": name, "kwargs": kw}
+            if kw.get("Reconcile") is False:
+                kw2["Reconcile"] = False
             r.evaluations += 1
             try:
                 obs = fn(sts, **kw2)
